@@ -1412,6 +1412,9 @@ def compute_parabolic_extrema(y, locs):
 
     # Find co-ordinates of extrema from parameters abc
     tp = - abc[1, :] / (2*abc[0, :])
+    # The vertex of a parabola through a discrete extremum lies within half a
+    # sample of it; enforce this when rounding on near-flat triples says otherwise
+    tp = np.clip(tp, 1.5, 2.5)
     t = tp - 2 + locs
     y_hat = tp*abc[1, :]/2 + abc[2, :]
 
